@@ -505,8 +505,9 @@ class NumGen:
         op = r.choice(['+', '-', '*', '+', '*', 'neg', 'abs', 'round', 'min', 'max', 'ifexpr', 'fma', 'floor', 'div'])
         a = lambda: self.expr(vars_, d - 1)
         if r.random() < 0.18:
-            # the other numeric builtins: every one has a transfer function in FormatInfer (or falls back to the context's format)
-            x = r.choice(['sqrt', 'cbrt', 'fmod', 'remainder', 'mod', 'copysign', 'fdim', 'hypot', 'powop', 'pow', 'roundint', 'nearbyint', 'nan', 'inf',
+            # the other numeric builtins: every one has a transfer function in FormatInfer (or falls back to the context's format).
+            # Powers are left out: under REAL in a loop they grow without bound and two shards of seed 1 ran past ten minutes
+            x = r.choice(['sqrt', 'cbrt', 'fmod', 'remainder', 'mod', 'copysign', 'fdim', 'hypot', 'roundint', 'nearbyint', 'nan', 'inf',
                           'logb', 'round_at', 'cast', 'sum', 'len', 'exp', 'log', 'sin', 'atan2', 'const', 'fmin', 'signsel', 'suml'])
             ra = lambda: f'fp.round({a()})'
             if x in ('sqrt', 'cbrt', 'roundint', 'nearbyint', 'logb', 'exp', 'log', 'sin'):
